@@ -33,10 +33,10 @@ def classify(line):
     # The one known class: a case containing an identity whose name must be shortened while maxLength leaves more
     # room than the 43 characters of the digest text (nftables limit 256) -- the pinned code panics there.
     # Such identities are generated only in cases carrying the tag below, and only those cases are excused.
-    if "arp-dispatch-clash" in line.get("tags", []):
+    if "arp-dispatch-clash" in line.get("tags") or []:
         # dedicated cases holding the fixed chain cali-arp-dispatch and the ARP chain of an interface called "dispatch"
         return "arp-dispatch-name-clash"
-    if "beyond-hash" in line.get("tags", []) and any(s.endswith("-> PANIC") for s in line.get("sample", {}).get("names", [])):
+    if "beyond-hash" in line.get("tags") or [] and any(s.endswith("-> PANIC") for s in line.get("sample", {}).get("names", [])):
         return "nft-long-name-panic"
     return None
 
